@@ -134,7 +134,9 @@ func (w *world) inspect() (*stateReport, error) {
 			add("dest-missing", "dest", "%s", rep.DestDesc)
 		}
 	case w.destKind == "dir":
-		if de.Kind != "d" {
+		if got, _ := os.ReadFile(w.dest); de.Kind == "f" && w.old != nil && bytes.Equal(got, w.old) {
+			rep.Dest = "old" // the regular file that was there before
+		} else if de.Kind != "d" {
 			rep.Dest, rep.DestDesc = "fragment", "destination is not a directory"
 		} else {
 			rep.Dest, rep.DestDesc = w.judgeTree()
